@@ -5,6 +5,7 @@
 
 #include "support/MuscleSupport.h"  // needed for WIN32 defines, etc
 #include "support/NotCopyable.h"
+#include "support/VerifHooks.h"
 #include "util/NestCount.h"
 #include "util/OutputPrinter.h"
 
@@ -281,6 +282,7 @@ private:
 # if !defined(MUSCLE_NO_EXCEPTIONS)
       try {
 # endif
+         (void) MUSCLE_VERIF_YIELD(muscle::verif::YIELD_MUTEX_LOCK, this, 0);
          _locker.lock();
 # if !defined(MUSCLE_NO_EXCEPTIONS)
       } catch(...) {return B_LOCK_FAILED;}
@@ -312,6 +314,9 @@ private:
 #ifdef MUSCLE_SINGLE_THREAD_ONLY
       return B_NO_ERROR;
 #elif !defined(MUSCLE_AVOID_CPLUSPLUS11)
+#ifdef MUSCLE_VERIF_HOOKS
+      if (muscle::verif::YieldFuncRef()) {const bool verifGotIt = _locker.try_lock(); if (verifGotIt) (void) MUSCLE_VERIF_YIELD(muscle::verif::YIELD_MUTEX_TRYLOCKED, this, 0); return verifGotIt ? B_NO_ERROR : B_LOCK_FAILED;}
+#endif
       return _locker.try_lock() ? B_NO_ERROR : B_LOCK_FAILED;
 #elif defined(MUSCLE_USE_PTHREADS)
       const int pret = pthread_mutex_trylock(&_locker);
@@ -339,6 +344,7 @@ private:
       return B_NO_ERROR;
 #elif !defined(MUSCLE_AVOID_CPLUSPLUS11)
       _locker.unlock();
+      (void) MUSCLE_VERIF_YIELD(muscle::verif::YIELD_MUTEX_UNLOCK, this, 0);
       return B_NO_ERROR;
 #elif defined(MUSCLE_USE_PTHREADS)
       return B_ERRNUM(pthread_mutex_unlock(&_locker));
